@@ -51,9 +51,12 @@ inline thread_local char g_cur[4096];  // descriptor of the case in flight (for 
 inline thread_local long g_cur_idx = -1;
 inline char g_crash_path[1024];
 
+inline volatile int g_crash_noted = 0;
 inline void crash_note(const char *what) {
-  // async-signal-safe-ish: open/write only
-  if (!g_crash_path[0]) return;
+  // async-signal-safe-ish: open/write only; the first note wins (a sanitizer
+  // report is followed by abort())
+  if (!g_crash_path[0] || g_crash_noted) return;
+  g_crash_noted = 1;
   FILE *f = fopen(g_crash_path, "w");
   if (!f) return;
   fprintf(f, "%s\n%ld\n%s\n", what, g_cur_idx, g_cur);
